@@ -285,6 +285,111 @@ func reelection() func(s *vsched.Sched) {
 	}
 }
 
+// A replica whose log holds a session (and a record of it) in the part it has not applied yet
+// becomes leader: the session must be alive on it (heartbeats accepted, record present) and
+// must expire, with its record, after a full timeout without heartbeats.
+func electionWithSessionInUnappliedTail() func(s *vsched.Sched) {
+	return func(s *vsched.Sched) {
+		e := setup(s)
+		if e == nil {
+			return
+		}
+		if st, err := e.put("plain", "x", nil); err != nil || st != proto.Status_OK {
+			s.Fail("harness-setup", fmt.Sprint(st, err))
+			return
+		}
+		sid := e.session(2000)
+		if st, err := e.put("k1", "eph", &sid); err != nil || st != proto.Status_OK {
+			s.Fail("harness-setup", fmt.Sprint(st, err))
+			return
+		}
+		s.Settle()
+		// the old leader's log, replicated to a follower that is told nothing is committed yet
+		var entries []*proto.LogEntry
+		rd, err := server.VerifLeaderWal(e.lc).NewReader(-1)
+		if err != nil {
+			s.Fail("harness-setup", err.Error())
+			return
+		}
+		for rd.HasNext() {
+			le, err := rd.ReadNext()
+			if err != nil {
+				s.Fail("harness-setup", err.Error())
+				return
+			}
+			entries = append(entries, le)
+		}
+		_ = rd.Close()
+		env2 := oxc.NewEnv(s)
+		net := oxc.NewNet()
+		walf := env2.WalFactory("n2", 64*1024, true)
+		kvf := oxc.NewObsFactory(env2.Dir)
+		cfg := server.Config{NotificationsRetentionTime: time.Hour}
+		fc, err := server.NewFollowerController(cfg, "ns", 1, walf, kvf)
+		if err != nil {
+			s.Fail("harness-setup", err.Error())
+			return
+		}
+		net.Peers["n2"] = fc
+		if _, err := fc.NewTerm(&proto.NewTermRequest{Namespace: "ns", Shard: 1, Term: 1, Options: &proto.NewTermOptions{EnableNotifications: true}}); err != nil {
+			s.Fail("harness-setup", err.Error())
+			return
+		}
+		st, err := net.GetReplicateStream(context.Background(), "n2", "ns", 1, 1)
+		if err != nil {
+			s.Fail("harness-setup", err.Error())
+			return
+		}
+		nAck := 0
+		vsched.Go(func() {
+			for {
+				if _, err := st.Recv(); err != nil {
+					return
+				}
+				nAck++
+			}
+		})
+		for _, le := range entries {
+			_ = st.Send(&proto.Append{Term: 1, Entry: le, CommitOffset: -1})
+		}
+		s.Settle()
+		if nAck != len(entries) {
+			s.Fail("harness-setup", fmt.Sprintf("follower acknowledged %d of %d entries", nAck, len(entries)))
+			return
+		}
+		_ = e.lc.Close()
+		_ = fc.Close()
+		s.Settle()
+		s.Explore(true)
+		lc, err := server.NewLeaderController(cfg, "ns", 1, net, walf, kvf)
+		if err == nil {
+			_, err = lc.NewTerm(&proto.NewTermRequest{Namespace: "ns", Shard: 1, Term: 2, Options: &proto.NewTermOptions{EnableNotifications: true}})
+		}
+		if err == nil {
+			_, err = lc.BecomeLeader(context.Background(), &proto.BecomeLeaderRequest{Namespace: "ns", Shard: 1, Term: 2, ReplicationFactor: 1, FollowerMaps: map[string]*proto.EntryId{}})
+		}
+		if err != nil {
+			s.Fail("election-failed", err.Error())
+			return
+		}
+		e2 := &env{s: s, lc: lc}
+		s.Sleep(1000 * time.Millisecond)
+		if g := e2.get("k1"); g == nil || g.Status != proto.Status_OK {
+			s.Fail("session-lost-on-leader-change", "ephemeral record of a session created in the unapplied tail is missing 1 s after the election")
+		}
+		if err := lc.KeepAlive(sid); err != nil {
+			s.Fail("session-lost-on-leader-change", "heartbeat of a session created in the unapplied tail refused by the new leader: "+err.Error())
+		}
+		s.Sleep(3 * time.Second)
+		s.Settle()
+		s.Explore(false)
+		if r := e2.residue(sid); len(r) > 0 {
+			s.Fail("session-residue", fmt.Sprintf("session %d (created in the unapplied tail of the new leader's log) never expired: %v", sid, r))
+		}
+		_ = lc.Close()
+	}
+}
+
 func scenarios(tier string) []sched.Scenario {
 	cfg := vsched.Config{MaxSteps: 100000}
 	race := cfg
@@ -297,6 +402,7 @@ func scenarios(tier string) []sched.Scenario {
 		{Name: "close-vs-own-ephemeral-put", Cfg: cfg, MaxDev: d, Body: closeVsOwnPut()},
 		{Name: "expiry-vs-heartbeat", Cfg: race, MaxDev: 2, Body: expiryVsHeartbeat()},
 		{Name: "reelection", Cfg: cfg, MaxDev: 1, Body: reelection()},
+		{Name: "election-with-session-in-unapplied-tail", Cfg: cfg, MaxDev: 1, Body: electionWithSessionInUnappliedTail()},
 		{Name: "early-heartbeats", Cfg: cfg, MaxDev: 2, Body: earlyHeartbeats()},
 	}
 	if tier == "thorough" {
